@@ -5,8 +5,13 @@ from . import extract
 _GEN = re.compile(r"::<[^<>]*>")
 
 
+_STD = re.compile(r"\bstd::(option|result|iter|ops|convert|clone|cmp|slice|mem|num|marker|default|fmt|str|array|ptr|cell|any|hash|borrow)::")
+
+
 def strip_generics(p):
-    """`a::B::<'a, D>::f::<X>` -> `a::B::f` (nested generics handled by iterating)."""
+    """`a::B::<'a, D>::f::<X>` -> `a::B::f` (nested generics handled by iterating); std:: re-exports of core
+    modules are spelled core:: so that no_std and std units agree."""
+    p = _STD.sub(lambda m: "core::" + m.group(1) + "::", p)
     prev = None
     while prev != p:
         prev = p
